@@ -24,6 +24,39 @@ def make_nl(rp, spec):
     return nl
 
 
+def make_pilot(rp, spec):
+    """the node list as the application gets it: `pilot.nodelist` of a real Pilot that received its resource details
+    with the update that made it active"""
+    import threading as mt
+    pm = object.__new__(rp.PilotManager)
+    pm._uid, pm._log = 'pmgr.verif', rpload.NullLog()
+    pm._pcb_lock = mt.RLock()
+    pm._callbacks = {m: dict() for m in rp.constants.PMGR_METRICS}
+    p = object.__new__(rp.Pilot)
+    p._uid, p._state, p._log, p._pmgr = 'pilot.0000', 'PMGR_ACTIVE_PENDING', rpload.NullLog(), pm
+    p._cb_lock = mt.RLock()
+    p._callbacks = {m: dict() for m in rp.constants.PMGR_METRICS}
+    p._pilot_dict = {'uid': 'pilot.0000', 'state': 'PMGR_ACTIVE_PENDING'}
+    p._nodelist = None
+    class _Sub(object):
+        def stop(self): pass
+    p._sub = _Sub()
+    p._spec = spec
+    pilot_update(p)
+    return p
+
+
+def pilot_update(p):
+    """the agent's PMGR_ACTIVE message (it travels on the state channel and with the pilot_activate command: it may
+    reach the pilot object more than once)"""
+    spec = p._spec
+    nodes = [{'name': 'node-%04d' % i, 'index': i,
+              'cores': [None if c is None else c / float(U) for c in n['cores']],
+              'gpus': [None if g is None else g / float(U) for g in n['gpus']],
+              'lfs': n['lfs'], 'mem': n['mem']} for i, n in enumerate(spec['nodes'])]
+    p._update({'uid': 'pilot.0000', 'state': 'PMGR_ACTIVE', 'resources': {'rm_info': {'node_list': nodes, 'numa_domain_map': {}}}})
+
+
 def occ(v):
     return None if v is None else int(round(v * U))
 
@@ -40,9 +73,16 @@ def state(nl):
 
 def run_real(rp, spec, ops):
     from radical.pilot.resource_config import RankRequirements
-    nl = make_nl(rp, spec)
+    pilot = make_pilot(rp, spec)
     held, answers, trace = {}, [], []
     for o in ops:
+        nl = pilot.nodelist
+        if o[0] == 'update':
+            pilot_update(pilot)
+            answers.append('updated')
+            nl = pilot.nodelist
+            trace.append({'op': o, 'before': None, 'after': state(nl), 'answer': 'updated', 'held': {k: [slot_canon(s) for s in v] for k, v in held.items()}})
+            continue
         if o[0] == 'find':
             rr = RankRequirements(n_cores=o[2]['n_cores'], core_occupation=o[2]['core_occ'] / float(U), n_gpus=o[2]['n_gpus'],
                                   gpu_occupation=o[2]['gpu_occ'] / float(U), lfs=o[2]['lfs'], mem=o[2]['mem'])
@@ -79,6 +119,7 @@ def run_real(rp, spec, ops):
             else:
                 answers.append('unknown')
             trace.append({'op': o, 'before': None, 'after': state(nl), 'answer': answers[-1], 'held': {k: [slot_canon(s) for s in v] for k, v in held.items()}})
+    nl = pilot.nodelist
     return {'answers': answers, 'nodes': state(nl), 'index': int(getattr(nl, '__index__', 0))}, trace
 
 
@@ -95,6 +136,8 @@ def gen(rng):
     for _ in range(rng.randint(3, 14)):
         if live and rng.random() < 0.4:
             h = rng.choice(live); live.remove(h); ops.append(['release', h])
+        elif rng.random() < 0.12:
+            ops.append(['update'])             # the pilot's ACTIVE update (with its resource details) arrives once more
         elif rng.random() < 0.25:
             # the application supplies a slot itself: distinct core / GPU indices (sometimes out of range), whole or
             # half occupations, on any node - whatever is held there at the moment
